@@ -1,6 +1,7 @@
 import PepperModel.Generated.Tables
 import PepperProofs.ParsePil
 import PepperProofs.ParsePilLoad
+import PepperProofs.ParsePilNames
 import PepperProps.C06
 /-!
 # ParsePil — the designer's PIL *text* reader, tied to the compile model's emitter
@@ -9,7 +10,9 @@ Model: `PepperModel/ParsePil.lean` (`parsePil tbl text`), a line-by-line mirror 
 (`load_spec` + the four statement regexes of `utils.match`; the reader is `re`-based, NOT a pyparsing grammar) that
 returns the calls `load_spec` makes on `PIL_class.Spec` as the `Pil.Stmt` list `Pil.load` consumes (a `kinetic` line
 makes no call).  `harness/parsecorr_pil.py` runs the real `load_spec` on the same bytes (recording the calls) and
-compares.  Proofs: `PepperProofs/ParsePil.lean`, `PepperProofs/ParsePilLoad.lean`.
+compares.  Proofs: `PepperProofs/ParsePil.lean` (scanners, line shapes, documents, round trip),
+`PepperProofs/ParsePilLoad.lean` (`structsNonempty` from `Comp.load`), `PepperProofs/ParsePilNames.lean` (the names
+predicate from a predicate on the sources).
 
 The theorems close the gap "the theorems start from statements, the designer starts from text":
 
@@ -17,9 +20,12 @@ The theorems close the gap "the theorems start from statements, the designer sta
   (`Sys.emitPilInst` / `Comp.emitPil`, one line per statement) parses to exactly the statement list the end-to-end
   theorems use (`Emit.instStmts` / `Emit.compStmts`), under the decidable predicate `instEmitOk` / `compEmitOk` on the
   loaded tree.  What the predicate says, and where each clause comes from:
-  - every NAME the emitter writes is non-empty over the reader's alphabet `[A-Za-z0-9_-]` (`nameOk`; names with other
-    characters are outside the existing compile well-formedness — the source readers decide them — so this clause
-    stays a hypothesis: `instNamesOk`);
+  - every NAME the emitter writes is non-empty over the reader's alphabet `[A-Za-z0-9_-]` (`nameOk`, collected in
+    `instNamesOk` / `compNamesOk`).  The existing compile well-formedness says nothing about the characters of names
+    (the compile model takes arbitrary strings; the source readers decide them), so this cannot follow from it; it
+    FOLLOWS from `Comp.load` / `Sys.loadFile` and a decidable predicate on the SOURCES (`names_of_compile`): the prefix is
+    over the alphabet (`charsOk`), every name a component statement declares is (`srcCharsOk`), every instance and
+    signal name of a system is (`sysCharsOk`) — all other names written are those, `_Anon<k>`, or found in the tables;
   - template letters are codes of the reader's table and not white space / `:` / `#`; structure texts are over `.()+`;
     every structure has a strand — all three FOLLOW from `Pil.load` accepting the statements
     (`emitOk_of_load`), which C01/C02 prove for compiled programs;
@@ -29,7 +35,8 @@ The theorems close the gap "the theorems start from statements, the designer sta
     `instNamesOk`; true whenever the stored decimals are digit strings).
 * (b) `parse_names_wellformed`: every statement of an ACCEPTED document has the shape `stmtWF`.
 * (c) `end_to_end_component_from_text`, `end_to_end_from_text`: C06's end-to-end theorems with the hypothesis
-  `Pil.load … (compStmts st)` replaced by "the emitted TEXT parses to `stmts` and `Pil.load` accepts `stmts`".
+  `Pil.load … (compStmts st)` replaced by "the emitted TEXT parses to `stmts` and `Pil.load` accepts `stmts`"; the
+  `…_src` versions take the names hypothesis on the sources instead of on the loaded tree.
 -/
 namespace Pepper.ParsePil.Props
 open Pepper Pepper.ParsePil
@@ -91,6 +98,24 @@ theorem structsNonempty_of_compile :
       Sys.loadFile b fuel base args argKey pfx path includes anon = .ok (inst, a') →
       instStructsNonempty inst = true) :=
   ⟨load_structsNonempty, loadFile_structsNonempty⟩
+
+/-- **The names predicate follows from the sources.**  (i) a component loaded under a prefix of name characters from a
+    source with `UserNamesOk` whose declared names are non-empty over `[A-Za-z0-9_-]` has `compNamesOk`; (ii) a tree
+    loaded from a bundle whose component sources are such and whose system sources name instances and signals over
+    the alphabet has `instNamesOk`. -/
+theorem names_of_compile :
+    (∀ {src : Comp.Src} {n : Nat} {pfx : String} {a : Nat} {st : Comp.St} {a' : Nat},
+      Comp.load src n pfx a = .ok (st, a') → Comp.UserNamesOk src = true → charsOk pfx = true →
+      srcCharsOk src = true → compNamesOk st = true) ∧
+    (∀ {b : Sys.Bundle} {fuel : Nat} {base : String} {args : Nat} {argKey pfx path : String}
+      {includes : List String} {anon : Nat} {inst : Sys.Inst} {a' : Nat},
+      Sys.loadFile b fuel base args argKey pfx path includes anon = .ok (inst, a') →
+      SysProofs.bundleOk Generated.nupackTable b = true → bundleCharsOk b = true → charsOk pfx = true →
+      instNamesOk inst = true) :=
+  ⟨fun h hn hp hs => (compNamesOk_of_load h hn hp hs).1,
+   fun h hb hc hp => instNamesOk_of_loadFile
+    (fun _ _ hl => ⟨(SysProofs.bundleOk_comp hb hl).1, bundleCharsOk_comp hc hl⟩)
+    (fun _ _ hl => bundleCharsOk_sys hc hl) h hp⟩
 
 /-- the generated tables satisfy the two table hypotheses -/
 theorem tables_ok :
@@ -155,6 +180,26 @@ theorem end_to_end_component_from_text {src : Comp.Src} {n : Nat} {pfx : String}
   cases hparse
   exact Pepper.C06.end_to_end_component hcomp hnames hcodes hload hn ha hg
 
+/-- **(c), names hypothesis on the source**: the same with `compNamesOk st` replaced by `charsOk pfx` (the prefix is
+    over `[A-Za-z0-9_-]`) and `srcCharsOk src` (every declared name is non-empty over it) -/
+theorem end_to_end_component_from_text_src {src : Comp.Src} {n : Nat} {pfx : String} {anon : Nat} {st : Comp.St} {a' : Nat}
+    (hcomp : Comp.load src n pfx anon = .ok (st, a'))
+    (hnames : Comp.UserNamesOk src = true) (hcodes : Comp.CodesOk Generated.nupackTable src = true)
+    (hpfx : charsOk pfx = true) (hsrc : srcCharsOk src = true)
+    {stmts : List Pil.Stmt}
+    (hparse : parsePil Generated.nupackTable (String.intercalate "\n" (Comp.emitPil st)) = .ok stmts)
+    {spec : Spec} (hload : Pil.load Generated.nupackTable stmts {} = .ok spec)
+    (hn : MfeNamesDistinct spec) {a : Arrays} (ha : getConstraints .strand spec = .ok a) {nts : List Char}
+    (hg : ArraysGood a nts) :
+    ∃ (o : Denote.Out) (ports : List (List Nuc × Bool)) (asg : Var → Base) (assigned : Mfe.Assigned) (out : Finish.Out),
+      Denote.denoteComp src pfx anon = .ok (o, ports, a') ∧
+      Mfe.processResults Generated.pilTable spec (startOf .strand spec) nts = .ok (assigned, strandSeqs spec asg) ∧
+      Mfe.output Generated.pilTable spec assigned (strandSeqs spec asg) = some (mfeLines Generated.pilTable spec asg) ∧
+      Finish.apply Generated.dnaTable (.comp st) (mfeDesign Generated.pilTable spec asg) = .ok out ∧
+      Sat Generated.pilTable (o.design []) asg ∧ Entries Generated.pilTable (o.design []) asg out ∧
+      SatSrc Generated.pilTable (o.design []) out :=
+  end_to_end_component_from_text hcomp hnames hcodes (names_of_compile.1 hcomp hnames hpfx hsrc) hparse hload hn ha hg
+
 /-- the statement list the reader obtains from a compiled component's text IS `Emit.compStmts` -/
 theorem parse_of_compile_component {src : Comp.Src} {n : Nat} {pfx : String} {anon : Nat} {st : Comp.St} {a' : Nat}
     (hcomp : Comp.load src n pfx anon = .ok (st, a'))
@@ -188,6 +233,36 @@ theorem end_to_end_from_text {b : Sys.Bundle} {fuel : Nat} {base : String} {args
   obtain ⟨d, ports, asg, assigned, out, h1, h2, h3, h4, h5, h6, _⟩ := Pepper.C06.end_to_end hfile hb hload hn ha hg
   exact ⟨d, ports, asg, assigned, out, h1, h2, h3, h4, h5, h6, asg, h5, h6⟩
 
+/-- **(c), systems, names hypothesis on the sources** (`bundleCharsOk`, `charsOk pfx`) -/
+theorem end_to_end_from_text_src {b : Sys.Bundle} {fuel : Nat} {base : String} {args : Nat} {argKey pfx path : String}
+    {includes : List String} {anon : Nat} {inst : Sys.Inst} {a' : Nat}
+    (hfile : Sys.loadFile b fuel base args argKey pfx path includes anon = .ok (inst, a'))
+    (hb : SysProofs.bundleOk Generated.nupackTable b = true)
+    (hchars : bundleCharsOk b = true) (hpfx : charsOk pfx = true)
+    {stmts : List Pil.Stmt}
+    (hparse : parsePil Generated.nupackTable (String.intercalate "\n" (Sys.emitPilInst inst)) = .ok stmts)
+    {spec : Spec} (hload : Pil.load Generated.nupackTable stmts {} = .ok spec)
+    (hn : MfeNamesDistinct spec) {a : Arrays} (ha : getConstraints .strand spec = .ok a) {nts : List Char}
+    (hg : ArraysGood a nts) :
+    ∃ (d : Design) (ports : List (List Nuc × Bool)) (asg : Var → Base) (assigned : Mfe.Assigned) (out : Finish.Out),
+      Denote.denoteFile b fuel base args argKey pfx path includes anon = .ok (d, ports, a') ∧
+      Mfe.processResults Generated.pilTable spec (startOf .strand spec) nts = .ok (assigned, strandSeqs spec asg) ∧
+      Mfe.output Generated.pilTable spec assigned (strandSeqs spec asg) = some (mfeLines Generated.pilTable spec asg) ∧
+      Finish.apply Generated.dnaTable inst (mfeDesign Generated.pilTable spec asg) = .ok out ∧
+      Sat Generated.pilTable d asg ∧ Entries Generated.pilTable d asg out ∧ SatSrc Generated.pilTable d out :=
+  end_to_end_from_text hfile hb (names_of_compile.2 hfile hb hchars hpfx) hparse hload hn ha hg
+
+/-- the text of every compiled tree reads back as `Emit.instStmts`, hypotheses on the sources only -/
+theorem parse_of_compile {b : Sys.Bundle} {fuel : Nat} {base : String} {args : Nat} {argKey pfx path : String}
+    {includes : List String} {anon : Nat} {inst : Sys.Inst} {a' : Nat}
+    (hfile : Sys.loadFile b fuel base args argKey pfx path includes anon = .ok (inst, a'))
+    (hb : SysProofs.bundleOk Generated.nupackTable b = true)
+    (hchars : bundleCharsOk b = true) (hpfx : charsOk pfx = true) :
+    parsePil Generated.nupackTable (String.intercalate "\n" (Sys.emitPilInst inst)) = .ok (Emit.instStmts inst) := by
+  obtain ⟨spec', _, _, hload', _, _⟩ := end_to_end_tree hfile hb
+  exact parse_emit_roundtrip (emitOk_of_load tables_ok.1 tables_ok.2.1 hload'
+    (names_of_compile.2 hfile hb hchars hpfx) (loadFile_structsNonempty hfile))
+
 end
 
 /-! ### non-vacuity and the reader's corner cases (all checked against the real reader by the harness) -/
@@ -203,6 +278,9 @@ example : compEmitOk Generated.nupackTable Pepper.C06.dupSt = true := by decide 
 
 example : parsePil Generated.nupackTable (String.intercalate "\n" (Comp.emitPil Pepper.C06.dupSt)) =
     .ok (Emit.compStmts Pepper.C06.dupSt) := parse_emit_roundtrip_component (by decide +kernel)
+
+/-- the source of the duplex satisfies the source predicate -/
+example : srcCharsOk Pepper.C06.dupSrc = true ∧ charsOk "d-" = true := by decide +kernel
 
 /-- the two-gate system of C02 satisfies the tree predicate -/
 example : Pepper.C02.exTree.map (instEmitOk Generated.nupackTable) = some true := by decide +kernel
